@@ -158,6 +158,10 @@ func (c03) Gen(seed uint64, tier string) Case {
 			if r.Bool(0.5) {
 				call.SleepMs = 1 + r.Intn(2500)
 			}
+			if r.Bool(0.25) {
+				call.After = []string{"td", "fin-empty", "fin-added", "destroyed", "created"}[r.Intn(5)]
+				call.SleepMs = 0
+			}
 			calls = append(calls, call)
 		}
 		c.Actors = append(c.Actors, calls)
@@ -413,7 +417,12 @@ func (c03) Run(t *testing.T, cs Case, trace bool) *Outcome {
 			}
 		}
 		preLen := len(w.Log)
-		w.onCommit = func(Commit) {
+		trig := newCommitTriggers(TypeA)
+		for _, cm := range w.Log {
+			trig.fire(cm)
+		}
+		w.onCommit = func(cm Commit) {
+			trig.fire(cm)
 			for _, h := range helpers {
 				if h.TdCtx != nil && h.CancelSeenAt < 0 && h.TdCtx.Err() != nil {
 					h.CancelSeenAt = len(w.Log) - 1 // cancelled before this commit was made
@@ -465,6 +474,12 @@ func (c03) Run(t *testing.T, cs Case, trace bool) *Outcome {
 				for _, call := range calls {
 					if call.SleepMs > 0 {
 						simrt.Sleep(time.Duration(call.SleepMs) * time.Millisecond)
+					}
+					if call.After != "" {
+						if !trig.wait(ctx, call.After, call.ID) {
+							return
+						}
+						out.fault("reactive-actor:" + call.After + "->" + call.Kind)
 					}
 					simrt.Yield("actor.op")
 					rec := &rmwRec{Task: name, Call: call}
